@@ -110,7 +110,7 @@ func TestVerif_C22_Leader(t *testing.T) {
 	r.SetRule("per case: 1-30 operators on 1-100 seats (PRNG addresses, some sharing long prefixes), window index 1..10^6 (biased to multiples of 4 and their neighbours), PRNG wallet key and safe-block hash; 3-6 member views = permutations of the seat list and re-seatings of the same operator set, each with its own chain view that agrees only on the safe block hash (decoy hashes elsewhere), each evaluated twice. non-trivial = at least two views that differ as sequences were compared and some operator holds more than one seat")
 	r.Assume("a member's local view of a wallet is a seat list over the wallet's operator set; the safe block is coordination block - 32 (coordinationSafeBlockShift)")
 
-	n := r.N(20000, 1000000)
+	n := r.N(20000, 400000)
 	var heartbeats, quads int64
 	verifkit.Parallel(n, 0, func(i int) {
 		rng := r.SubRand("case", i)
@@ -214,8 +214,10 @@ func TestVerif_C22_Leader(t *testing.T) {
 			for rep := 0; rep < 2; rep++ {
 				var got res
 				var err error
-				vdesc := fmt.Sprintf("%s view=%d(%s) rep=%d operators=%v", desc, vi, v.kind, rep, v.operators)
-				if r.Guard("leader:", vdesc, func() {
+				vdescFn := func() string {
+					return fmt.Sprintf("%s view=%d(%s) rep=%d operators=%v", desc, vi, v.kind, rep, v.operators)
+				}
+				if r.Guard("leader:", desc, func() {
 					got.seed, err = ex.getSeed(block)
 					if err != nil {
 						return
@@ -227,33 +229,42 @@ func TestVerif_C22_Leader(t *testing.T) {
 					continue
 				}
 				if err != nil {
-					r.Violation("leader:seed-error", "getSeed failed although the safe block hash is known: "+err.Error(), vdesc, ch.asked)
+					r.Violation("leader:seed-error", "getSeed failed although the safe block hash is known: "+err.Error(), vdescFn(), ch.asked)
 					failed = true
 					continue
 				}
 				if !inSet(got.leader) {
-					r.Violation("leader:not-an-operator", fmt.Sprintf("leader %q is not one of the wallet's operators", got.leader), vdesc, nil)
+					r.Violation("leader:not-an-operator", fmt.Sprintf("leader %q is not one of the wallet's operators", got.leader), vdescFn(), nil)
 				}
 				want := c22ExpectedChecklist(idx, got.seed)
 				if !c22ChecklistEq(got.checklist, want) {
-					r.Violation("checklist:model", fmt.Sprintf("checklist %v, statement gives %v for window index %d", got.checklist, want, idx), vdesc, hex.EncodeToString(got.seed[:]))
+					r.Violation("checklist:model", fmt.Sprintf("checklist %v, statement gives %v for window index %d", got.checklist, want, idx), vdescFn(), hex.EncodeToString(got.seed[:]))
 				}
 				if len(results) > 0 {
 					b := results[0]
 					if got.seed != b.seed {
-						r.Violation("leader:seed-differs", "two members with the same wallet, window and safe block hash derive different seeds", vdesc, []string{hex.EncodeToString(b.seed[:]), hex.EncodeToString(got.seed[:])})
+						r.Violation("leader:seed-differs", "two members with the same wallet, window and safe block hash derive different seeds", vdescFn(), []string{hex.EncodeToString(b.seed[:]), hex.EncodeToString(got.seed[:])})
 					}
 					if got.leader != b.leader {
-						r.Violation("leader:differs:"+v.kind, fmt.Sprintf("leader %q in this view, %q in the base view", got.leader, b.leader), vdesc, views[0].operators)
+						r.Violation("leader:differs:"+v.kind, fmt.Sprintf("leader %q in this view, %q in the base view", got.leader, b.leader), vdescFn(), views[0].operators)
 					}
 					if !c22ChecklistEq(got.checklist, b.checklist) {
-						r.Violation("checklist:differs", fmt.Sprintf("checklist %v in this view, %v in the base view", got.checklist, b.checklist), vdesc, nil)
+						r.Violation("checklist:differs", fmt.Sprintf("checklist %v in this view, %v in the base view", got.checklist, b.checklist), vdescFn(), nil)
 					}
 				}
 				results = append(results, got)
 			}
-			if vi > 0 && fmt.Sprint(v.operators) != fmt.Sprint(views[0].operators) {
-				differ = true
+			if vi > 0 {
+				if len(v.operators) != len(views[0].operators) {
+					differ = true
+				} else {
+					for s := range v.operators {
+						if v.operators[s] != views[0].operators[s] {
+							differ = true
+							break
+						}
+					}
+				}
 			}
 		}
 		if failed || len(results) == 0 {
